@@ -50,6 +50,7 @@ func (w *World) advanceClock() bool {
 		return false
 	}
 	w.timers = w.timers[1:]
+	w.clockEpoch++
 	if t.deadline > w.now {
 		w.now = t.deadline
 	}
@@ -76,6 +77,7 @@ func (w *World) advanceClock() bool {
 	// AfterFunc: runs in its own goroutine
 	g := &G{wake: make(chan struct{}, 1), dead: make(chan struct{}, 1), Site: "timer", ID: "0.t" + itoa(t.seq), path: []int32{0, 1 << 20, int32(t.seq)}}
 	g.idh = hashStr(g.ID)
+	g.Index = len(w.gs)
 	g.hash = mix(0x71, uint64(t.seq), uint64(w.now))
 	w.gs = append(w.gs, g)
 	w.launch(g, t.fn)
@@ -90,7 +92,7 @@ func Now() time.Time {
 		return time.Now()
 	}
 	if w.opts.Time == Nondet {
-		w.yield(&op{kind: opNop, name: "now", eff: func() { w.cur.hash = mix(w.cur.hash, uint64(w.now), 0x90) }})
+		w.yield(&op{kind: opNop, name: "now", obj: &w.clockObj, ro: true, eff: func() { w.cur.hash = mix(w.cur.hash, uint64(w.now), 0x90) }})
 	}
 	return Epoch.Add(time.Duration(w.now))
 }
@@ -169,7 +171,7 @@ func (t *Timer) Stop() bool {
 		return false
 	}
 	active := false
-	w.yield(&op{kind: opNop, name: "timer-stop", eff: func() {
+	w.yield(&op{kind: opNop, name: "timer-stop", global: true, eff: func() {
 		active = w.removeTimer(t.t)
 		if t.t.ch != nil {
 			c := w.vc(t.t.ch, chanID(t.t.ch), 1)
@@ -189,7 +191,7 @@ func (t *Timer) Reset(d time.Duration) bool {
 		return false
 	}
 	active := false
-	w.yield(&op{kind: opNop, name: "timer-reset", eff: func() {
+	w.yield(&op{kind: opNop, name: "timer-reset", global: true, eff: func() {
 		active = w.removeTimer(t.t)
 		if t.t.ch != nil {
 			c := w.vc(t.t.ch, chanID(t.t.ch), 1)
@@ -241,7 +243,7 @@ func (t *Ticker) Stop() {
 	if w == nil {
 		return
 	}
-	w.yield(&op{kind: opNop, name: "ticker-stop", eff: func() {
+	w.yield(&op{kind: opNop, name: "ticker-stop", global: true, eff: func() {
 		w.removeTimer(t.t)
 		w.cur.hash = mix(w.cur.hash, uint64(t.t.seq), 0x5709)
 	}})
@@ -256,7 +258,7 @@ func (t *Ticker) Reset(d time.Duration) {
 	if w == nil {
 		return
 	}
-	w.yield(&op{kind: opNop, name: "ticker-reset", eff: func() {
+	w.yield(&op{kind: opNop, name: "ticker-reset", global: true, eff: func() {
 		w.removeTimer(t.t)
 		t.t.period = int64(d)
 		t.t.deadline = w.now + int64(d)
